@@ -18,7 +18,7 @@
   queries); Model/GridSizing.lean (track sizing as an interaction program).
 
   Children are addressed by their index in the container's child list.  A panic of the implementation (checked integer
-  arithmetic in placement, `assert!`s of `into_track_vec_index`, slice indexing) is the `Except.error` outcome of
+  arithmetic in placement, `assert!`s of `into_track_vec_index` for in-flow items, slice indexing) is the `Except.error` outcome of
   `computeGridLayoutE`; `computeGridLayout` maps it to `LayoutOutput.hidden` (the driver prints `panic` instead).
   `set_detailed_grid_info` is not modelled.  No Mathlib.
 -/
@@ -201,8 +201,13 @@ def positionItems (childStyles : List (GridChildStyle α)) (rows columns : List 
         (acc.f32Max contribution)
       pure (it :: rest, acc)
 
+/-- `maybe_grid_line.and_then(|line: OriginZeroLine| line.try_into_track_vec_index(counts))` -/
+def absLineIndex (counts : GridPlacement.TrackCounts) : Option Int → GridPlacement.Outcome (Option Int)
+  | none => pure none
+  | some l => tryIntoTrackVecIndex l counts
+
 /-- `Line<GridPlacement>::into_origin_zero(explicit).resolve_absolutely_positioned_grid_tracks()
-.map(|l| l.map(|line| line.into_track_vec_index(counts)))` -/
+.map(|l| l.and_then(|line| line.try_into_track_vec_index(counts)))`: a line outside of the implicit grid is `None` (= auto) -/
 def absTrackIndexes (pl : Line GridPlacement.Placement) (counts : GridPlacement.TrackCounts) :
     GridPlacement.Outcome (Line (Option Int)) := do
   let oz ← GridPlacement.intoOriginZero pl counts.explicit
@@ -221,13 +226,8 @@ def absTrackIndexes (pl : Line GridPlacement.Placement) (counts : GridPlacement.
       pure ⟨some st, some t⟩
     | .auto, .line t => pure ⟨none, some t⟩
     | _, _ => pure ⟨none, none⟩ : GridPlacement.Outcome (Line (Option Int)))
-  let conv : Option Int → GridPlacement.Outcome (Option Int) := fun o => match o with
-    | none => pure none
-    | some l => do
-      let i ← intoTrackVecIndex l counts
-      pure (some i)
-  let s ← conv r.start
-  let e ← conv r.end
+  let s ← absLineIndex counts r.start
+  let e ← absLineIndex counts r.end
   pure ⟨s, e⟩
 
 def optOffset (tracks : List (GridTrack α)) (i : Option Int) (dflt : α) : GM α α :=
@@ -293,7 +293,8 @@ def computeGridLayoutE (style : GridStyle α) (childStyles : List (GridChildStyl
     style.gridTemplateRows c.autoFitContainerSize.height)
   -- 3. Implicit Grid: Estimate Track Counts
   let boxChildren : List GridPlacement.Child :=
-    (childStyles.filter fun cs => !cs.base.isHidden).map fun cs => ⟨cs.gridRow, cs.gridColumn⟩
+    ((childStyles.filter fun cs => !cs.base.isHidden).filter fun cs => cs.base.position != .absolute).map fun cs =>
+      ⟨cs.gridRow, cs.gridColumn⟩
   let (estColCounts, estRowCounts) ←
     GM.ofOutcome (GridPlacement.computeGridSizeEstimate explicitColCount explicitRowCount boxChildren)
   -- 4. Grid Item Placement
